@@ -326,3 +326,8 @@ for tier in ('quick', 'thorough'):
 PROPS['C04']['bounds'] = ('M: the panic point is a symbolic choice over every call of caller code. (a) bounded: N <= 3 (thorough 6) with unwinding assertion; (b) ALL N < 2^63: the same pipelines (generate, owned map, zip in four forms, Clone, &-receiver map, try_from_iter, boxed generate) with the internal iteration summarised by an automatically instantiated, solver-checked loop invariant (induction over the iteration number); guards\' Drop: ALL N; needs_drop symbolic. K: N <= 4 (thorough 8).')
 PROPS['C04']['assumptions'] += ['inductive scenarios: array lengths below 2^63 (iteration counter does not wrap)']
 PROPS['C07']['bounds'] += ' M: try_from_iter with a panicking / lying source, N <= 3 unrolled and ALL N < 2^63 by loop-invariant induction.'
+
+for tier in ('quick', 'thorough'):
+    PROPS['C04']['mir'][tier][-1]['scenarios'] += ['fold@ind', 'iter.fold@ind', 'iter.rfold@ind']
+PROPS['C06']['mir']['quick'].append({'scenarios': ['iter.fold@ind', 'iter.rfold@ind'], 'nmax': 3, 'timeout': 1800, 'soft_inconclusive': True})
+PROPS['C04']['technique'] = 'symbolic execution of rustc MIR with unwind edges, drop flags and an element-ownership ledger + z3: the panic point is a symbolic choice over every call of caller code; pipelines both unrolled (N <= 3/6) and summarised by an auto-checked loop invariant (all N); Kani/CBMC for the guards\' Drop impls'
